@@ -32,7 +32,7 @@ use datafusion_common::tree_node::{Transformed, TreeNode};
 use datafusion_common::{Column, DFSchema, DFSchemaRef, Result, qualified_name};
 use datafusion_expr::expr::{Alias, HigherOrderFunction, ScalarFunction};
 use datafusion_expr::logical_plan::{
-    Aggregate, Filter, LogicalPlan, Projection, Sort, Window,
+    Aggregate, DmlStatement, Filter, LogicalPlan, Projection, Sort, Window, WriteOp,
 };
 use datafusion_expr::{
     BinaryExpr, Case, Expr, ExpressionPlacement, Operator, SortExpr, col,
@@ -565,6 +565,14 @@ impl OptimizerRule for CommonSubexprEliminate {
             LogicalPlan::Filter(filter) => self.try_optimize_filter(filter, config)?,
             LogicalPlan::Window(window) => self.try_optimize_window(window, config)?,
             LogicalPlan::Aggregate(agg) => self.try_optimize_aggregate(agg, config)?,
+            // The input of UPDATE / DELETE is not executed: its assignments and
+            // predicates are handed to the `TableProvider`, which resolves them
+            // against the table schema where an intermediate `__common_expr_N`
+            // column does not exist.
+            LogicalPlan::Dml(DmlStatement {
+                op: WriteOp::Update | WriteOp::Delete,
+                ..
+            }) => Transformed::no(plan),
             LogicalPlan::Join(_)
             | LogicalPlan::Repartition(_)
             | LogicalPlan::Union(_)
